@@ -23,7 +23,17 @@ def shapes(maxlen):
 
 
 def gen(quick: bool) -> str:
-    out = []
+    out = ['''
+def nest_begline(o0: bool, o1: bool, o2: bool, o3: bool, o4: bool, o5: bool) -> bool:
+    """
+    post: _
+    """
+    return begline_nesting(o0, o1, o2, o3, o4, o5)
+
+
+def replay_nest_begline(o0, o1, o2, o3, o4, o5):
+    return replay_begline_nesting(o0, o1, o2, o3, o4, o5)
+''']
     ML = 2 if quick else 4  # deepest open marker
     TL = 3 if quick else 5  # token length
     for lens in shapes(ML):
@@ -188,6 +198,7 @@ def run(rep: C.Report) -> None:
             "^hend_": dict(name="Ob2 heading end on the same line moves the text into the heading argument", functions=["parser.py:subtitle_end_fn"], bounds="all 64 masks x levels 1..6"),
             "^hline_": dict(name="Ob3 rule closes sections deeper than level 2 and lands in the remaining top", functions=["parser.py:hline_fn"], bounds="all 64 masks x list chains"),
             "^list_": dict(name="Ob4 list step: equal marker continues the list, proper-prefix item nests, anything else starts a new list", functions=["parser.py:list_fn", "parser.py:pop_until_nth_list"], bounds=f"chains with deepest marker <= {2 if quick else 4}, token <= {3 if quick else 5} symbolic chars over {{*,#}}, with/without an open section"),
+            "^nest_": dict(name="Ob7 line-start syntax (lists, headings) stays disabled while any argument list is being re-parsed, however the re-parses nest", functions=["core.py:BegLineDisableManager", "parser.py:magic_fn (with ctx.begline_disabled)"], bounds="all well-nested enter/exit sequences of length 6"),
             "^fill_": dict(name="Ob5 filler text at line start closes all lists and lands in the section", functions=["parser.py:text_fn"], bounds="same chains; one text character"),
         },
         timeout=120 if quick else 600,
